@@ -96,6 +96,10 @@ func (r *Reader) readBlock() (rerr error) {
 			zstdReader, err := zstd.NewReader(nil,
 				zstd.WithDecoderConcurrency(1),
 				zstd.WithDecoderLowmem(true),
+				// The frame inside declares a content size of its own, which
+				// is allocated up front: hold it to the same limit as the
+				// data size of the block header.
+				zstd.WithDecoderMaxMemory(maxDataSize),
 			)
 			if err != nil {
 				return errors.Wrap(err, "zstd")
